@@ -159,12 +159,17 @@ def run(ctx):
     reps = 1 if ctx.tier == 'quick' else 10
     # ---- (i) templates -------------------------------------------------------------
     covered = set()
-    for cid, rng in ctx.cases([('tpl', r) for r in range(reps)]):
+    for r in range(reps):
+        cid = ('tpl', r)
+        if ctx.only_case is not None and ctx.only_case != cid:
+            continue
+        rng = ctx.rng(cid)
         S = samples(F, rng, path)
         T = templates(F, S, rng)
         for i, (q, label, fn) in enumerate(T):
-            if (i % ctx.nshards) != ctx.shard and ctx.only_case is None and ctx.nshards > 1 and reps == 1:
-                continue        # quick tier: spread the single template pass over the shards
+            # every shard builds the same samples and runs its own slice of the template list
+            if ctx.only_case is None and (i % ctx.nshards) != ctx.shard:
+                continue
             mon.cid = cid
             mon.template = '%s [%s]' % (q, label)
             with np.errstate(all='ignore'):
@@ -302,4 +307,7 @@ def run(ctx):
                       first_diff=diff(alone[j], got))
             ctx.case_done(class_key=('pair', kind, Q[i][0].split(':')[0]), nontrivial=i != j,
                           distinct_key=core.digest(kind, i, j), sample={'q1': Q[i][0], 'q2': Q[j][0], 'kind': kind} if (i, j) in ((3, 9), (14, 2)) else None)
+    # the repository's own tests as a workload under the same monitors (their assertions are not the oracle)
+    from rv import suite_workload
+    suite_workload.run_repo_suite(ctx, mon, modules=('test_io.py', 'test_transform.py', 'test_gate.py', 'test_stats.py'))
     mon.detach()
